@@ -4,6 +4,8 @@ U1  one door for gates: BuilderGates are only constructed in push_xor / push_and
     `None` answer of optimize_xor / optimize_and on the same operands or is a recognised rewrite site with fresh operands
 U2  constant / idempotence folding and commutative sharing are in front of the door
 U3  dead gates are always swept before a circuit is built
+U3b the sweep copies a gate into the final list only on the edge where its mark is set, and sets marks only at indices that
+    derive from a popped worklist entry
 U4  data-movement arms of the lowering emit no gate; push_mux / push_condswap fold equal operands
 """
 from .. import mir
@@ -245,6 +247,53 @@ SILENT_PAT = ["Identifier"]
 FOLDING_PAT = ["Tuple", "Struct", "StructIgnoreRemaining"]
 
 
+def rule_u3b(ctx):
+    """The sweep keeps a gate only if it was marked, and marks only what came off the worklist."""
+    res = RuleResult("U3b", "a gate survives the sweep only if it was marked; marks are set only for worklist entries")
+    fid = "circuit::CircuitBuilder::remove_unused_gates"
+    body = ctx.body(fid)
+    pops = [(b, t) for b, t in body.calls() if mir.last_seg(mir.callee(t) or "") == "pop"]
+    if len(pops) != 1:
+        raise AnchorMissing("U3b: remove_unused_gates no longer has one worklist pop")
+    pb, pt = pops[0]
+    # the mark vector: Vec<bool> written through index_mut with a key that derives from the popped entry
+    marks = set()
+    for b, t in body.calls():
+        if mir.last_seg(mir.callee(t) or "") == "index_mut" and "bool" in t["dest"]["ty"]:
+            key = body.deep_sources(t["args"][1], 3)
+            from_pop = any(r[0] == "call" and r[1] == pb for (r, p) in key)
+            root = {(r, tuple(p)) for (r, p) in body.trace_operand(t["args"][0])}
+            if from_pop:
+                marks |= root
+                res.ok({"site": "mark at line %d" % t["sp"][1], "verdict": "index derives from the popped worklist entry"})
+            else:
+                res.bad(Finding("U3b", fid, "gate marked as used without coming off the worklist", "a mark is set at an index that does not derive from a popped worklist entry: unreachable gates survive the sweep", t["sp"]))
+    if not marks:
+        raise AnchorMissing("U3b: no mark vector found in remove_unused_gates")
+    # the survivors: pushes of self.gates[_] into a fresh vector
+    keeps = [(b, t) for b, t in body.calls() if mir.last_seg(mir.callee(t) or "") == "push" and len(t["args"]) == 2 and
+             "BuilderGate" in t["args"][1].get("place", {}).get("ty", "") and
+             any(r == ("arg", 1) and p[:1] == ("gates",) for (r, p) in body.trace_operand(t["args"][1]))]
+    if not keeps:
+        raise AnchorMissing("U3b: remove_unused_gates no longer copies the surviving gates")
+    for b, t in keeps:
+        ok = False
+        for x in range(body.n):
+            tt = body.term(x)
+            if tt and tt["k"] == "switch" and tt["discr"]["k"] in ("copy", "move") and body.locals[tt["discr"]["place"]["l"]]["ty"] == "bool":
+                src = {(r, tuple(p[:-1]) if p and p[-1].startswith("[") else tuple(p)) for (r, p) in body.trace_operand(tt["discr"])}
+                if src & marks:
+                    zero_t = {tg for v, tg in tt["targets"] if v == 0}
+                    edges = {(x, s_) for s_ in body.succs(x) if s_ not in zero_t}
+                    if C02._dominated_by_edges(body, edges, b):
+                        ok = True
+        if ok:
+            res.ok({"site": "survivor copy at line %d" % t["sp"][1], "verdict": "only on the edge where the gate's mark is set"})
+        else:
+            res.bad(Finding("U3b", fid, "gates are kept without looking at their mark", "a gate is copied into the final gate list on a path where its mark was not tested to be set: useless gates stay in the circuit", t["sp"]))
+    return res
+
+
 def rule_u4(ctx):
     res = RuleResult("U4", "data-movement arms emit no gate; mux / condswap fold equal operands")
     reach = ctx.cg.reach_set({PUSH_GATE})
@@ -302,4 +351,4 @@ def rule_u4(ctx):
 
 
 def run(ctx):
-    return ctx.run_rules([rule_u1, rule_u2, rule_u3, rule_u4])
+    return ctx.run_rules([rule_u1, rule_u2, rule_u3, rule_u3b, rule_u4])
